@@ -23,6 +23,8 @@ def run(ctx):
     b_snapshot(ctx)
     c_cache(ctx)
     d_more(ctx)
+    b_error_delivery(ctx)
+    c_store_roundtrip(ctx)
 
 
 def _nodes_between(cfg, a, b):
@@ -127,7 +129,17 @@ def b_snapshot(ctx):
               "between the snapshot and `%s.set()` the only await is the embedding call on the snapshot `%s`" % (evname, bv), line=S.line)
     if model:
         rv = model[0].ast.targets[0].id
-        stores = [n for n in mid if n.kind == "stmt" and isinstance(n.ast, ast.Assign) and src(n.ast.targets[0]).startswith("self._req_results[")]
+        all_stores = [n for n in mid if n.kind == "stmt" and isinstance(n.ast, ast.Assign) and src(n.ast.targets[0]).startswith("self._req_results[")]
+        # a store inside an except handler that hands the caught exception to the ids of the same snapshot is the error path, not a result
+        def _error_store(n):
+            h = n.ast
+            while h is not None and not isinstance(h, ast.ExceptHandler):
+                h = getattr(h, "_parent", None)
+            if h is None or not h.name or src(n.ast.value) != h.name:
+                return False
+            lp_ = n.ast._parent
+            return isinstance(lp_, ast.For) and src(lp_.iter) == idv and re.sub(r"\s", "", src(n.ast.targets[0])) == "self._req_results[%s]" % src(lp_.target)
+        stores = [n for n in all_stores if not _error_store(n)]
         oks = len(stores) == 1
         if oks:
             tgt = re.sub(r"\s", "", src(stores[0].ast.targets[0]))
@@ -138,6 +150,23 @@ def b_snapshot(ctx):
             # no await between the stores and set()
             after = _nodes_between(cfg, model[0], S)
             oks = oks and not [n for n in after if n.has_await()]
+        # "every concurrent request completes": the event that wakes the waiting requests is set even when the model call raises
+        mc = model[0].ast
+        tr = mc
+        in_finally = False
+        while tr is not None and tr is not fn:
+            par = getattr(tr, "_parent", None)
+            if isinstance(par, ast.Try) and tr in par.body:
+                if any(src(x) == "%s.set()" % evname for st_ in par.finalbody for x in ast.walk(st_) if isinstance(x, ast.Call)):
+                    in_finally = True
+                elif par.handlers and all(any(isinstance(x, ast.Call) and src(x) == "%s.set()" % evname for x in ast.walk(h)) for h in par.handlers) and \
+                        any(h.type is None or src(h.type) in ("Exception", "BaseException") for h in par.handlers):
+                    in_finally = True
+            tr = par
+        ctx.check("C19.b.completion", BASIC, unit, "`%s.set()` also when the model call raises" % evname, in_finally,
+                  "the batch event is set in a `finally` (or in every handler) around the model call: the waiting requests wake up with the result or the error" if in_finally else
+                  "`%s.set()` is only reached when the model call returns: _run_batch is a detached task, so if the embedding model raises once (transient network error) every request of that batch "
+                  "waits forever - neither result nor error" % evname, line=S.line)
         ctx.check("C19.b.pairing", BASIC, unit, "results stored by index", oks,
                   "result i is stored under request id %s[i] (same index on both sides) and all stores precede `%s.set()` with no await in between" % (idv, evname), line=S.line)
 
@@ -263,3 +292,51 @@ def _anc(node, stop):
     while p is not None and p is not stop:
         yield p
         p = getattr(p, "_parent", None)
+
+
+def b_error_delivery(ctx):
+    """If _run_batch hands a caught exception to the requests of the batch through the result table, the requests must re-raise it - an exception object returned as
+    `the embedding` would be a wrong vector."""
+    t = ctx.tree.ast(BASIC)
+    rb = find_function(t, "_run_batch", "BasicEmbeddingsIndex")
+    bg = find_function(t, "_batch_get_embeddings", "BasicEmbeddingsIndex")
+    if rb is None or bg is None:
+        raise AnalysisError("_run_batch / _batch_get_embeddings not found", anchor=BASIC + "::_run_batch")
+    err = [a for h in ast.walk(rb) if isinstance(h, ast.ExceptHandler) and h.name for a in ast.walk(h)
+           if isinstance(a, ast.Assign) and src(a.targets[0]).startswith("self._req_results[") and src(a.value) == h.name]
+    if not err:
+        ctx.note("C19.b: no exception is passed through the result table")
+        return
+    rets = [r for r in ast.walk(bg) if isinstance(r, ast.Return) and isinstance(r.value, ast.Name)]
+    ok = False
+    for r in rets:
+        v = r.value.id
+        for i in [x for x in ast.walk(bg) if isinstance(x, ast.If) and x.lineno < r.lineno]:
+            if re.search(r"isinstance\(\s*%s\s*,\s*(Base)?Exception\s*\)" % v, src(i.test)) and any(isinstance(x, ast.Raise) for x in ast.walk(i)):
+                ok = True
+    ctx.check("C19.b.completion", BASIC, "BasicEmbeddingsIndex._batch_get_embeddings", "a stored error is raised, not returned", ok,
+              "a request whose batch failed raises the stored exception" if ok else
+              "_run_batch stores the caught exception in the result table but the request returns the table entry unchecked: the exception OBJECT is handed out as the text's embedding", line=bg.lineno)
+
+
+def c_store_roundtrip(ctx):
+    """`any store`: what get(key) returns must be what set(key, value) was given - a list of floats.  Stores whose medium holds text/bytes (files, redis) must serialise
+    on set and parse on get; the in-memory store keeps the object."""
+    t = ctx.tree.ast(CACHE)
+    stores = [c for c in t.body if isinstance(c, ast.ClassDef) and any(src(b) == "CacheStore" for b in c.bases)]
+    ctx.floor("C19.c.store-roundtrip", CACHE, "CacheStore implementations", len(stores), 3, [c.name for c in stores])
+    for c in stores:
+        g = [f for f in c.body if isinstance(f, ast.FunctionDef) and f.name == "get"]
+        st = [f for f in c.body if isinstance(f, ast.FunctionDef) and f.name == "set"]
+        if not g or not st:
+            ctx.check("C19.c.store-roundtrip", CACHE, c.name, "get/set", False, "%s lacks get or set" % c.name, line=c.lineno)
+            continue
+        gs, ss = src(g[0]), src(st[0])
+        dumps = "json.dump" in ss
+        loads = "json.load" in gs
+        external = any(k in ss + gs for k in ("open(", "_redis", "requests.", "socket"))
+        ok = (dumps and loads) if external else (dumps == loads)
+        ctx.check("C19.c.store-roundtrip", CACHE, c.name, "value round trip", ok,
+                  ("set serialises and get parses (JSON)" if dumps else "the object itself is kept") if ok else
+                  "%s keeps values in an external medium but %s: a list of floats cannot be stored as is (redis-py >= 3 raises DataError; older clients return the bytes of its string form as `the embedding`)"
+                  % (c.name, "set does not serialise the value" if not dumps else "get does not parse what set wrote"), line=c.lineno)
